@@ -1,6 +1,7 @@
 package spine
 
 import (
+	"errors"
 	"fmt"
 
 	"github.com/ahmetb/go-linq/v3"
@@ -62,6 +63,9 @@ func (r *NodeManagement) handleMsgBindingData(message *api.Message) error {
 func (r *NodeManagement) handleMsgBindingRequestCall(message *api.Message, data *model.NodeManagementBindingRequestCallType) error {
 	switch message.CmdClassifier {
 	case model.CmdClassifierTypeCall:
+		if data.BindingRequest == nil {
+			return errors.New("nodemanagement.handleBindingRequestCall: bindingRequest is missing")
+		}
 		return r.Device().BindingManager().AddBinding(message.FeatureRemote.Device(), *data.BindingRequest)
 
 	default:
@@ -72,6 +76,9 @@ func (r *NodeManagement) handleMsgBindingRequestCall(message *api.Message, data 
 func (r *NodeManagement) handleMsgBindingDeleteCall(message *api.Message, data *model.NodeManagementBindingDeleteCallType) error {
 	switch message.CmdClassifier {
 	case model.CmdClassifierTypeCall:
+		if data.BindingDelete == nil {
+			return errors.New("nodemanagement.handleBindingDeleteCall: bindingDelete is missing")
+		}
 		return r.Device().BindingManager().RemoveBinding(*data.BindingDelete, message.FeatureRemote.Device())
 
 	default:
